@@ -19,9 +19,8 @@ ISIGNED = {'i8', 'i16', 'i32', 'i64'}
 CNAME = {'bool': '_Bool', 'i8': 'signed char', 'i16': 'short', 'i32': 'int', 'i64': 'long', 'u8': 'unsigned char',
          'u16': 'unsigned short', 'u32': 'unsigned int', 'u64': 'unsigned long', 'f32': 'float', 'f64': 'double',
          'f80': 'long double'}
-KNOWN_U64F32 = 'C02-u64-to-f32-signed'
-KNOWN_FPU64 = 'C02-fp-to-u64-above-2p63'
-KNOWN_LIT = 'C02-literal-double-rounding'
+# (the three former known findings of C02 -- unsigned long -> float at >= 2^63, floating -> unsigned long at >= 2^63, literals
+#  rounded twice through strtold -- were repaired in /repo: there is no known region any more, every mismatch is a VIOLATION)
 
 
 def tsize(t):
@@ -54,7 +53,30 @@ def int_candidates():
          P(64) - P(39) - 1, P(64) - P(40), 0xfffffffffffff400, 0xfffffffffffffbff, 0xffffff7fffffffff, 0xffffff8000000000,
          -P(63), -P(63) + 1, -(P(63) - P(39)), -(P(62) + P(38)), -(P(62) + P(38) + 1), 1000000007, -1000000007,
          123456789012345678, -123456789012345678]
+    # unsigned long at >= 2^63 (the halve-with-sticky-bit sequences): for float (ulp 2^40 in [2^63, 2^64)) and double (ulp 2^11)
+    # every combination of even/odd last kept bit x {just below, exactly, just above the half-way point, half-way + lowest bit}
+    for ulp in (40, 11):
+        h = P(ulp - 1)
+        for base in (P(63), P(63) + P(ulp), P(63) + 5 * P(ulp), P(64) - 2 * P(ulp), P(64) - P(ulp), 0xc000000000000000 >> ulp << ulp,
+                     (0xdeadbeefcafef00d >> ulp << ulp) | P(63)):
+            for low in (0, 1, 2, h - 1, h, h + 1, h + 2, h | 1, 2 * h - 1, h + (h >> 1), 3):
+                v = base + low
+                if v < P(64):
+                    c.append(v)
     return c
+
+
+def u64_top_values(rng, n):
+    """random unsigned long values with bit 63 set whose discarded bits (for float and for double) sit at / next to the
+    half-way point, with and without a lone sticky bit 0"""
+    out = []
+    for _ in range(n):
+        ulp = rng.choice([40, 11])
+        kept = (rng.getrandbits(64 - ulp) | (1 << (63 - ulp))) << ulp
+        h = 1 << (ulp - 1)
+        low = rng.choice([0, 1, h - 1, h, h + 1, h | 1, rng.getrandbits(ulp), (rng.getrandbits(ulp) & ~1) | 1, h + rng.getrandbits(3)])
+        out.append((kept | low) & ((1 << 64) - 1))
+    return out
 
 
 def int_values(t, rng, nrand):
@@ -63,6 +85,10 @@ def int_values(t, rng, nrand):
     for v in int_candidates():
         if lo <= v <= hi and v not in vals:
             vals.append(v)
+    if t == 'u64':
+        for v in u64_top_values(rng, max(8, nrand)):
+            if v not in vals:
+                vals.append(v)
     for _ in range(nrand):
         if t == 'bool':
             break
@@ -112,6 +138,17 @@ def fp_values(fmt, rng, nrand):
             add(round_bits(fmt, s, x))
     p, w = FMT[fmt]['p'], FMT[fmt]['w']
     top = (1 << w) - 1
+    # floating -> unsigned long around 2^63 and 2^64: the neighbours of 2^63 and of 2^64 in the format, values in between,
+    # the last value below 2^64, fractions just below 2^63 (long double / double), and their negatives (undefined: dropped)
+    u = pow2(64 - p)            # ulp in [2^63, 2^64)
+    for x in (pow2(63) - u / 2, pow2(63), pow2(63) + u, pow2(63) + 3 * u, pow2(63) * Fraction(3, 2), pow2(63) * Fraction(3, 2) + u,
+              pow2(64) - 2 * u, pow2(64) - u, pow2(64), pow2(64) + 2 * u, pow2(63) - u, pow2(62) + u / 4, pow2(65), Fraction(1, 2), Fraction(999, 1000)):
+        for s in (0, 1):
+            add(encode_exact(fmt, s, x))
+    for _ in range(max(6, nrand // 8)):
+        m = rng.getrandbits(p - 1) | (1 << (p - 1))
+        add(encode_exact(fmt, 0, m * u))                       # uniformly in [2^63, 2^64)
+        add(encode_exact(fmt, 0, m * u / 2))                   # in [2^62, 2^63), possibly with a fraction 1/2
     for s in (0, 1):
         add(inf_bits(fmt, s))
         add(qnan_bits(fmt, s))
@@ -140,6 +177,23 @@ def fp_values(fmt, rng, nrand):
         else:
             m = frac
         add(pack(fmt, s, e, m))
+    return vals
+
+
+def range63_values(fmt, rng, n):
+    """bit patterns of values in [2^63, 2^64) (the hypothesis of the `x - 2^63 is exact` contracts) and their neighbours"""
+    p = FMT[fmt]['p']
+    u = pow2(64 - p)
+    vals = []
+    for x in (pow2(63), pow2(63) + u, pow2(63) + 2 * u, pow2(63) * Fraction(3, 2), pow2(64) - u, pow2(64) - 2 * u, pow2(63) - u / 2, pow2(64),
+              pow2(63) + u * ((1 << (p - 1)) - 1), pow2(63) + u * (1 << (p - 2))):
+        b = encode_exact(fmt, 0, x)
+        if b is not None and b not in vals:
+            vals.append(b)
+    for _ in range(n):
+        b = encode_exact(fmt, 0, (rng.getrandbits(p - 1) | (1 << (p - 1))) * u)
+        if b not in vals:
+            vals.append(b)
     return vals
 
 
@@ -187,16 +241,6 @@ def spec_convert(frm, to, src):
     if frm == to:
         return ('bits', src)
     return ('bits', round_bits(to, d[1], d[2]))
-
-
-def conv_known(frm, to, src):
-    if frm in ('u64',) and to == 'f32' and src >= 1 << 63:
-        return KNOWN_U64F32
-    if frm in FTYS and to == 'u64':
-        d = decode(frm, src)
-        if d[0] == 'fin' and not d[1] and trunc(d[2]) >= 1 << 63:
-            return KNOWN_FPU64
-    return None
 
 
 def int_bits(t, v):
@@ -634,13 +678,42 @@ int main(void) {
   for (int i = 0; i < N_P80; i++) { long double a = b2ld(PA80[i]), b = b2ld(PB80[i]); u64 fl;
     __asm__ volatile("fldt %2; fldt %1; fcomip; fstp %%st(0); pushfq; pop %0" : "=r"(fl) : "m"(a), "m"(b) : "cc");
     printf("fcomi "); p80(PA80[i]); printf(" "); p80(PB80[i]); printf(" %d %d %d\n", FLAGS(fl)); }
+  /* ---- the contracts behind the cells for unsigned long at >= 2^63 ---- */
+  for (int i = 0; i < N_P32; i++) { float a, b; memcpy(&a, &PA32[i], 4); memcpy(&b, &PB32[i], 4); u64 fl;
+    __asm__ volatile("comiss %2, %1; pushfq; pop %0" : "=r"(fl) : "x"(a), "x"(b) : "cc"); printf("comiss %u %u %d %d %d\n", PA32[i], PB32[i], FLAGS(fl)); }
+  for (int i = 0; i < N_P64; i++) { double a, b; memcpy(&a, &PA64[i], 8); memcpy(&b, &PB64[i], 8); u64 fl;
+    __asm__ volatile("comisd %2, %1; pushfq; pop %0" : "=r"(fl) : "x"(a), "x"(b) : "cc"); printf("comisd %lu %lu %d %d %d\n", PA64[i], PB64[i], FLAGS(fl)); }
+  { u32 c = 0x5f000000u; long double l; __asm__ volatile("flds %1; fstpt %0" : "=m"(l) : "m"(c)); printf("two63 80 "); p80(ld2b(l)); printf("\n"); }
+  for (int i = 0; i < N_R32; i++) { float a, c; u32 cb = 0x5f000000u, rb; memcpy(&a, &R32[i], 4); memcpy(&c, &cb, 4);
+    __asm__ volatile("subss %1, %0" : "+x"(a) : "x"(c)); memcpy(&rb, &a, 4); printf("subss63 %u %u\n", R32[i], rb);
+    u64 fl; float a2; memcpy(&a2, &R32[i], 4);
+    __asm__ volatile("comiss %2, %1; pushfq; pop %0" : "=r"(fl) : "x"(a2), "x"(c) : "cc"); printf("comiss %u %u %d %d %d\n", R32[i], cb, FLAGS(fl)); }
+  for (int i = 0; i < N_R64; i++) { double a, c; u64 cb = 0x43e0000000000000ul, rb; memcpy(&a, &R64[i], 8); memcpy(&c, &cb, 8);
+    __asm__ volatile("subsd %1, %0" : "+x"(a) : "x"(c)); memcpy(&rb, &a, 8); printf("subsd63 %lu %lu\n", R64[i], rb);
+    u64 fl; double a2; memcpy(&a2, &R64[i], 8);
+    __asm__ volatile("comisd %2, %1; pushfq; pop %0" : "=r"(fl) : "x"(a2), "x"(c) : "cc"); printf("comisd %lu %lu %d %d %d\n", R64[i], cb, FLAGS(fl)); }
+  for (int i = 0; i < N_R80; i++) { long double a = b2ld(R80[i]), r, k; u32 cb = 0x5f000000u; u64 fl;
+    __asm__ volatile("flds %2; fldt %1; fsub %%st(1), %%st; fstpt %0; fstp %%st(0)" : "=m"(r) : "m"(a), "m"(cb));
+    printf("fsub63 "); p80(R80[i]); printf(" "); p80(ld2b(r)); printf("\n");
+    __asm__ volatile("flds %1; fstpt %0" : "=m"(k) : "m"(cb));
+    __asm__ volatile("flds %2; fldt %1; fcomi %%st(1), %%st; pushfq; pop %0; fstp %%st(0); fstp %%st(0)" : "=r"(fl) : "m"(a), "m"(cb) : "cc");
+    printf("fcomi "); p80(R80[i]); printf(" "); p80(ld2b(k)); printf(" %d %d %d\n", FLAGS(fl)); }
+  for (int i = 0; i < N_I64; i++) { u32 cb = 0x5f800000u; long double l; float f; double d; u32 fb; u64 db;
+    if (I64[i] >> 63) { __asm__ volatile("fildq %1; fadds %2; fstpt %0" : "=m"(l) : "m"(I64[i]), "m"(cb)); printf("fadd64 %lu ", I64[i]); p80(ld2b(l)); printf("\n"); }
+    __asm__ volatile("cvtsi2ssq %1, %0; addss %0, %0" : "=x"(f) : "r"(I64[i]), "0"(0.0f)); memcpy(&fb, &f, 4); printf("addss2 %lu %u\n", I64[i], fb);
+    __asm__ volatile("cvtsi2sdq %1, %0; addsd %0, %0" : "=x"(d) : "r"(I64[i]), "0"(0.0)); memcpy(&db, &d, 8); printf("addsd2 %lu %lu\n", I64[i], db); }
+  { static const u16 cws[] = {0x037f, 0x077f, 0x0b7f, 0x0f7f, 0x027f, 0x007f}; u16 save; __asm__ volatile("fnstcw %0" : "=m"(save));
+    for (int c = 0; c < 6; c++) {
+      for (int i = 0; i < N_F32; i++) { u32 o; __asm__ volatile("fldcw %2; flds %1; fstps %0; fldcw %3" : "=m"(o) : "m"(F32[i]), "m"(cws[c]), "m"(save)); printf("fstfld32 %u %u\n", F32[i], o); }
+      for (int i = 0; i < N_F64; i++) { u64 o; __asm__ volatile("fldcw %2; fldl %1; fstpl %0; fldcw %3" : "=m"(o) : "m"(F64[i]), "m"(cws[c]), "m"(save)); printf("fstfld64 %lu %lu\n", F64[i], o); } } }
   return 0;
 }
 """
 
 
 def contract_program(values):
-    """values: {'i16','i32','i64': [unsigned patterns], 'f32','f64','f80': [patterns], 'pairs32/64/80': [(a,b)]}
+    """values: {'i16','i32','i64': [unsigned patterns], 'f32','f64','f80': [patterns], 'pairs32/64/80': [(a,b)],
+    'r32','r64','r80': [patterns whose value lies in or next to [2^63, 2^64)]}
     Each contract's instruction is executed through gcc inline assembly; one line `name inputs outputs` per execution."""
     out = [CONTRACT_C]
 
@@ -661,8 +734,11 @@ def contract_program(values):
     arr('PB64', 'u64', [b for _, b in values['pairs64']])
     arr80('PA80', [a for a, _ in values['pairs80']])
     arr80('PB80', [b for _, b in values['pairs80']])
+    arr('R32', 'u32', values['r32'])
+    arr('R64', 'u64', values['r64'])
+    arr80('R80', values['r80'])
     for macro, key in (('N_I16', 'i16'), ('N_I32', 'i32'), ('N_I64', 'i64'), ('N_F32', 'f32'), ('N_F64', 'f64'), ('N_F80', 'f80'),
-                       ('N_P32', 'pairs32'), ('N_P64', 'pairs64'), ('N_P80', 'pairs80')):
+                       ('N_P32', 'pairs32'), ('N_P64', 'pairs64'), ('N_P80', 'pairs80'), ('N_R32', 'r32'), ('N_R64', 'r64'), ('N_R80', 'r80')):
         out.append(f'#define {macro} {len(values[key])}')
     out.append(CONTRACT_MAIN)
     return '\n'.join(out) + '\n'
